@@ -96,6 +96,11 @@ type Cluster struct {
 	Corrupting    bool // corruption faults are active: server-side observers are silent
 	ChunkLen      int  // compression chunk size used for responses (0 = Hadoop default)
 	PermuteMulti  bool // permute result order inside multi responses
+	// master procedures and snapshots
+	Procs    map[uint64]*Proc
+	NextProc uint64
+	ProcFail string // exception class of every third procedure ("" = all succeed)
+	Snaps    map[string]*Snap
 }
 
 // ScanKnobs controls how servers cut scan streams (PRNG-driven, C06).
